@@ -377,5 +377,21 @@ func extractC17() *lean {
 	l.def("vcJwtSignatureErrConds", "List String", leanStrList(vj), vj)
 	vjCalls := c17Calls(funcDecl(svF, "jwtSignature"))
 	l.def("vcJwtSignatureCalls", "List String", leanStrList(vjCalls), vjCalls)
+	_, azF := parseFile("auth/services/oauth/authz_server.go")
+	vi := c17ErrConds(funcDecl(azF, "validateIssuer"))
+	l.def("validateIssuerErrConds", "List String", leanStrList(vi), vi)
+	kidBound := false
+	for _, c := range vi {
+		if strings.Contains(c, "vContext.kid") && strings.Contains(c, "vContext.requester") && strings.Contains(c, "!=") {
+			kidBound = true
+		}
+	}
+	l.def("authzV1ChecksKidIssuer", "Bool", c17Bool(kidBound), kidBound)
+	pb := c17Calls(funcDecl(azF, "parseAndValidateJwtBearerToken"))
+	l.def("parseBearerTokenCalls", "List String", leanStrList(pb), pb)
+	ic := c17Calls(funcDecl(azF, "IntrospectAccessToken"))
+	l.def("introspectCalls", "List String", leanStrList(ic), ic)
+	ie := c17ErrConds(funcDecl(azF, "IntrospectAccessToken"))
+	l.def("introspectErrConds", "List String", leanStrList(ie), ie)
 	return l
 }
